@@ -161,6 +161,7 @@ class JobRec:
         self.loss_base = 0
         self.loss_marks_total = 0
         self.reaped_later = False
+        self.result_phase = None
 
     def owners_unfinished(self):
         return {p['ack_proc'][0] for p in self.parts.values()
@@ -585,9 +586,16 @@ class Sim:
             if via == 'os.kill' and w.death_sent:
                 return            # on_death: make sure the worker is gone
             if sk == 'scan':
-                if not any(j.kind == 'apply' and j.owner == w.pid and j.t_acc is not None
-                           and j.hard and self.clock.t >= j.t_acc + j.hard
-                           for j in self.jobs.values()):
+                def justifies(j):
+                    if not (j.kind == 'apply' and j.owner == w.pid and j.t_acc is not None
+                            and j.hard and self.clock.t >= j.t_acc + j.hard):
+                        return False
+                    if not j.parts[0]['ready_proc']:
+                        return True
+                    # its result was processed: only a race inside on_hard_timeout
+                    # (after the scanner's own ready() test) excuses the kill
+                    return j.result_phase == ('B', getattr(self, 'scan_step', None))
+                if not any(justifies(j) for j in self.jobs.values()):
                     self.viol({'C05'}, 'term_signal_without_expired_hard_limit', pid=w.pid)
                 return
             if sk in ('shrink', 'terminate_job'):
@@ -1087,6 +1095,7 @@ class Sim:
         if th is None:
             return
         hook = None
+        self.scan_step = self.step_no
         if interleave and self.sent_fifo:
             hook = self._install_interleave()
         now = self.clock.t
@@ -1129,6 +1138,11 @@ class Sim:
             must_tle = [j for j in must_tle if j.obs is None or j.obs[0] == 'tle']
         for j in self.jobs.values():
             new_cbs = j.cb['timeout'][cb_before.get(j.jid, 0):]
+            if any(c[0] is False for c in new_cbs) and j.kind == 'apply' and \
+                    j.parts[0]['ready_proc'] and j.obs is not None and j.obs[0] != 'tle' and \
+                    j.result_phase != ('B', self.scan_step):
+                self.viol({'C05'}, 'hard_timeout_handling_for_finished_job', job=j.jid,
+                          callbacks=new_cbs, outcome=j.obs)
             if any(c[0] is True for c in new_cbs) and j.kind == 'apply' and j.hard and \
                     j.t_acc is not None and now >= j.t_acc + j.hard and j.h.ready():
                 self.viol({'C06'}, 'soft_timeout_handling_for_job_failed_by_hard_limit',
@@ -1165,15 +1179,29 @@ class Sim:
         self.check_sem()
 
     def _install_interleave(self):
+        """one pending message is processed by the "result handler" in the
+        middle of the scanner's pass, at one of two places: (A) between two
+        jobs of the pass, i.e. after the cache was copied and before the
+        scanner looks at the job's state; (B) inside on_hard_timeout after its
+        `job.ready()` test.  A result processed at (A) must stop the scanner
+        from treating the job as timed out; at (B) either outcome is legal."""
         import sys
         import inspect
         M = sys.monitoring
-        code = self.bp.TimeoutHandler.on_hard_timeout.__code__
+        bp = self.bp
+        where = self.rng.choice(['A', 'B'])
         try:
-            src, first = inspect.getsourcelines(self.bp.TimeoutHandler.on_hard_timeout)
-            line = next(first + i for i, ln in enumerate(src) if 'raise TimeLimitExceeded' in ln)
-        except (OSError, StopIteration):
-            self.rec.missing('on_hard_timeout source line for the interleaving failpoint')
+            if where == 'A':
+                fn = bp.TimeoutHandler.handle_timeouts
+                needle = 'ack_time = job._time_accepted'
+            else:
+                fn = bp.TimeoutHandler.on_hard_timeout
+                needle = 'raise TimeLimitExceeded'
+            src, first = inspect.getsourcelines(fn)
+            line = next(first + i for i, ln in enumerate(src) if needle in ln)
+            code = fn.__code__
+        except (OSError, StopIteration, AttributeError):
+            self.rec.missing('source line for the interleaving failpoint')
             return None
         TOOL = 4
         fired = [False]
@@ -1182,9 +1210,13 @@ class Sim:
         def on_line(c, ln):
             if ln == line and not fired[0] and sim.sent_fifo:
                 fired[0] = True
-                step_kind, step_no = sim.cur_step_kind, sim.step_no
-                sim.stat('interleaved_result_inside_scan')
+                step_kind = sim.cur_step_kind
+                sim.stat('interleaved_result_inside_scan_' + where)
+                before = {j.jid for j in sim.jobs.values() if j.parts.get(0, {}).get('ready_proc')}
                 sim.p_result()
+                for j in sim.jobs.values():
+                    if j.kind == 'apply' and j.parts[0]['ready_proc'] and j.jid not in before:
+                        j.result_phase = (where, sim.scan_step)
                 sim.cur_step_kind = step_kind
         M.use_tool_id(TOOL, 'vmon-sim')
         M.register_callback(TOOL, M.events.LINE, on_line)
